@@ -684,8 +684,13 @@ outerLoop:
 
 		if minContent > columnsMinContent+spacing {
 			excessWidth := minContent - (columnsMinContent + spacing)
-			distributeExcessWidth(context, zippedGrid, excessWidth, minContentWidths,
+			excessWidth = distributeExcessWidth(context, zippedGrid, excessWidth, minContentWidths,
 				constrainedness, intrinsicPercentages, maxContentWidths, columnSlice)
+			// The min-content width is a hard minimum: break the rules and
+			// share what could not be distributed among the spanned columns.
+			for s := columnSlice[0]; s < columnSlice[1]; s += 1 {
+				minContentWidths[s] += excessWidth / pr.Float(cell.Colspan)
+			}
 		}
 
 		if maxContent > columnsMaxContent+spacing {
